@@ -1,6 +1,7 @@
 package rules
 
 import (
+	"go/token"
 	"go/types"
 	"sort"
 	"strings"
@@ -24,6 +25,8 @@ import (
 //		R-nonblocking-send  every channel send on a request path can give up (default arm, ctx/done arm)
 //		R-per-request-growth every server-lifetime collection a request path inserts into has a removal that
 //		                    request paths (or a background sweeper) can reach
+//	  R-watcher-ends     a goroutine started to cancel a context also ends when a context ends
+//	  R-hashable-key     maps keyed by an interface type are indexed only with values boxed from hashable types
 //	  R-unbounded-input  no length-limited scanner on peer input
 //	  (R-lock-order also reports re-entrant acquisition of one mutex through callees)
 func init() { Registry["C06"] = checkC06 }
@@ -106,6 +109,8 @@ func checkC06(c *Ctx) {
 		})
 	}
 	serverSendsGiveUp(c, fns, "R-nonblocking-send")
+	watcherGoroutinesEnd(c, fns, "R-watcher-ends")
+	interfaceKeysHashable(c, fns, "R-hashable-key")
 	c06IndexGuard(c, fns, "R-index-guard")
 	c.R.Min("R-nonblocking-send", 10)
 	// close-once
@@ -447,5 +452,184 @@ func c06IndexGuard(c *Ctx, fns []*ssa.Function, rule string) {
 	}
 	if n == 0 {
 		c.R.Hold(rule, "no unguarded constant index into a split result", "", "")
+	}
+}
+
+// watcherGoroutinesEnd (R-watcher-ends): a goroutine started to cancel a context when something longer-lived ends
+// (`go func() { <-session.done; cancel() }()`) must itself end when that context ends — otherwise every request that
+// derives such a context leaves one goroutine parked until the session, connection or server goes away. Every blocking
+// wait of such a goroutine that precedes its cancel call therefore has an arm on the Done() channel of a context.
+// Watchers are recognised by what they do: the goroutine's function calls a context.CancelFunc it did not create.
+func watcherGoroutinesEnd(c *Ctx, fns []*ssa.Function, rule string) {
+	n := 0
+	for _, fn := range fns {
+		ir.EachInstr(fn, func(_ *ssa.BasicBlock, _ int, in ssa.Instruction) {
+			g, ok := in.(*ssa.Go)
+			if !ok {
+				return
+			}
+			var body *ssa.Function
+			switch v := g.Call.Value.(type) {
+			case *ssa.MakeClosure:
+				body, _ = v.Fn.(*ssa.Function)
+			case *ssa.Function:
+				body = v
+			}
+			if body == nil || len(body.Blocks) == 0 {
+				return
+			}
+			// does it call a cancel function it was given (free variable or parameter)?
+			var cancelCall ssa.Instruction
+			ir.EachCall(body, func(call ssa.CallInstruction) {
+				cc := call.Common()
+				if cc.IsInvoke() || ir.TypeStr(cc.Value.Type()) != "context.CancelFunc" {
+					return
+				}
+				switch unspill(cc.Value).(type) {
+				case *ssa.FreeVar, *ssa.Parameter:
+					cancelCall = call
+				default:
+					if u, ok := cc.Value.(*ssa.UnOp); ok {
+						if _, isFV := u.X.(*ssa.FreeVar); isFV {
+							cancelCall = call
+						}
+					}
+				}
+			})
+			if cancelCall == nil {
+				return
+			}
+			isDone := func(ch ssa.Value) bool {
+				oc := originCall(ch)
+				return oc != nil && ir.CallName(oc) == "(context.Context).Done"
+			}
+			ir.EachInstr(body, func(_ *ssa.BasicBlock, _ int, w ssa.Instruction) {
+				bare, okWait := "", true
+				switch x := w.(type) {
+				case *ssa.UnOp:
+					if x.Op != token.ARROW {
+						return
+					}
+					okWait = isDone(x.X)
+					bare = "a bare receive"
+				case *ssa.Select:
+					if !x.Blocking {
+						return
+					}
+					okWait = false
+					for _, st := range x.States {
+						if st.Dir == types.RecvOnly && isDone(st.Chan) {
+							okWait = true
+						}
+					}
+					bare = "a select without a ctx.Done() arm"
+				default:
+					return
+				}
+				n++
+				c.R.Check(okWait, rule, sprintf("wait of the context watcher started by %s", fname(fn)), c.Pos(w.Pos()), "the watcher also ends when a context ends",
+					sprintf("%s starts a goroutine that waits (%s) for something that outlives the call and then cancels a context; nothing ends that goroutine when the context itself is cancelled by its owner, so every call leaves one goroutine parked until then", fname(fn), bare))
+			})
+		})
+	}
+	if n == 0 {
+		c.R.Hold(rule, "no context-watcher goroutines", "", "no goroutine of the examined code calls a cancel function it was handed")
+	}
+}
+
+// interfaceKeysHashable (R-hashable-key): indexing a map whose key type is an interface panics ("hash of unhashable
+// type") when the dynamic type of the key is a map or slice — which is what a JSON object or array decoded into an
+// interface{} is. On server paths every key of such a map is therefore a value the code boxed itself from a hashable
+// concrete type (or a constant), never an interface value taken from a decoded message.
+func interfaceKeysHashable(c *Ctx, fns []*ssa.Function, rule string) {
+	var hashable func(fn *ssa.Function, v ssa.Value, d int) bool
+	concreteOK := func(t types.Type) bool {
+		if _, isIface := t.Underlying().(*types.Interface); isIface {
+			return false
+		}
+		return types.Comparable(t)
+	}
+	hashable = func(fn *ssa.Function, v ssa.Value, d int) bool {
+		if d > 3 {
+			return false
+		}
+		switch x := v.(type) {
+		case *ssa.Const:
+			return true
+		case *ssa.MakeInterface:
+			return concreteOK(x.X.Type())
+		case *ssa.ChangeInterface:
+			return hashable(fn, x.X, d+1)
+		case *ssa.Phi:
+			for _, e := range x.Edges {
+				if !hashable(fn, e, d+1) {
+					return false
+				}
+			}
+			return true
+		case *ssa.Parameter:
+			idx := -1
+			for i, p := range fn.Params {
+				if p == x {
+					idx = i
+				}
+			}
+			callers := 0
+			for _, e := range ir.Callers(c.G, fn) {
+				if e.Site == nil || !c.P.IsLib(e.Caller.Func) {
+					continue
+				}
+				args := e.Site.Common().Args
+				off := 0
+				if e.Site.Common().IsInvoke() {
+					off = 1
+				}
+				if idx-off < 0 || idx-off >= len(args) {
+					return false
+				}
+				callers++
+				if !hashable(e.Caller.Func, args[idx-off], d+1) {
+					return false
+				}
+			}
+			return callers > 0
+		}
+		return false
+	}
+	n := 0
+	for _, fn := range fns {
+		cnt := 0
+		ir.EachInstr(fn, func(_ *ssa.BasicBlock, _ int, in ssa.Instruction) {
+			var m, key ssa.Value
+			what := ""
+			switch x := in.(type) {
+			case *ssa.Lookup:
+				m, key, what = x.X, x.Index, "lookup"
+			case *ssa.MapUpdate:
+				m, key, what = x.Map, x.Key, "update"
+			case *ssa.Call:
+				if b, ok := x.Call.Value.(*ssa.Builtin); ok && b.Name() == "delete" && len(x.Call.Args) == 2 {
+					m, key, what = x.Call.Args[0], x.Call.Args[1], "delete"
+				}
+			}
+			if m == nil {
+				return
+			}
+			mt, ok := m.Type().Underlying().(*types.Map)
+			if !ok {
+				return
+			}
+			if _, isIface := mt.Key().Underlying().(*types.Interface); !isIface {
+				return
+			}
+			n++
+			cnt++
+			c.R.Check(hashable(fn, key, 0), rule, sprintf("%s #%d on a map keyed by an interface in %s", what, cnt, fname(fn)), c.Pos(in.Pos()),
+				"the key is boxed from a hashable concrete type",
+				sprintf("%s indexes a map whose key type is an interface (%s) with a value that is not known to be hashable: a JSON array or object decoded into that interface (an id, a requestId) makes the runtime panic with 'hash of unhashable type'", fname(fn), ir.TypeStr(mt.Key())))
+		})
+	}
+	if n == 0 {
+		c.R.Hold(rule, "no map keyed by an interface type on server paths", "", "")
 	}
 }
